@@ -120,6 +120,11 @@ func (h *vfE2H) doSub(t, c int, eph bool, mtMs int64, sample int, buf int) int {
 	}
 	if buf == 0 {
 		ident += `,"output_buffer_size":-1`
+	} else if buf == 2 {
+		// audit A13: the smallest bounded bufio.Writer (64 bytes): every message frame (>= 34 bytes + body) makes bufio flush
+		// automatically, frames are split over several Writes; the consumer side must still read exactly the frames written
+		ident += `,"output_buffer_size":64,"output_buffer_timeout":2`
+		h.count("sub:output-buffer-64")
 	} else {
 		ident += `,"output_buffer_timeout":2`
 	}
@@ -892,6 +897,8 @@ func (h *vfE2H) exec(line string) {
 		h.drain()
 	case "f8":
 		h.doF8(ai(1), w[2])
+	case "f8req": // f8req K seq — the REQ | Empty | RequeuedMessage window (hook proto.req.beforeClientCount)
+		h.doF8Mode(ai(1), w[2], "req")
 	case "overshoot":
 		h.doOvershoot(ai(1))
 	case "lateanswer": // lateanswer A B seq fin|req|touch
@@ -912,6 +919,8 @@ func (h *vfE2H) exec(line string) {
 		h.doPausedRestart()
 	case "busypause": // private NSQD, topic paused while its pump is mid-backlog (seeded C03-m7)
 		h.doBusyPause()
+	case "ephtopic": // private NSQDs, #ephemeral topic next to a durable one, memory queue full (audit A5)
+		h.doEphTopic()
 	}
 }
 
@@ -1169,7 +1178,7 @@ func (h *vfE2H) genOp(malformed bool) {
 		h.exec(fmt.Sprintf("fin %d %d", cn.k, held[r.Intn(len(held))]))
 	case pick < 615 && len(subs) > 0:
 		// requeue chain: the same message is requeued immediately several times by whoever holds it
-		cn := subs[r.Intn(len(subs))]
+		cn := h.pickHolder(subs)
 		held := h.heldBy(cn)
 		ch := h.chanOf(cn)
 		if len(held) == 0 || ch == nil {
@@ -1189,7 +1198,7 @@ func (h *vfE2H) genOp(malformed bool) {
 		}
 		h.count("gen:requeue-chain")
 	case pick < 690 && len(subs) > 0:
-		cn := subs[r.Intn(len(subs))]
+		cn := h.pickHolder(subs)
 		held := h.heldBy(cn)
 		if len(held) == 0 {
 			return
@@ -1200,7 +1209,7 @@ func (h *vfE2H) genOp(malformed bool) {
 		ds := []int64{0, 0, 0, 1, 20, 1000, h.cfg.maxreq, h.cfg.maxreq + 1, 1 << 40}
 		h.exec(fmt.Sprintf("req %d %d %d", cn.k, held[r.Intn(len(held))], ds[r.Intn(len(ds))]))
 	case pick < 730 && len(subs) > 0:
-		cn := subs[r.Intn(len(subs))]
+		cn := h.pickHolder(subs)
 		held := h.heldBy(cn)
 		if len(held) == 0 {
 			return
@@ -1286,6 +1295,22 @@ func (h *vfE2H) genOp(malformed bool) {
 	}
 }
 
+// pickHolder (audit A17, generator reach): REQ / TOUCH are only meaningful for a consumer that holds something —
+// prefer one (a uniformly drawn consumer holds nothing most of the time and the op was skipped)
+func (h *vfE2H) pickHolder(subs []*vfE2Conn) *vfE2Conn {
+	var hs []*vfE2Conn
+	for _, cn := range subs {
+		if len(h.heldBy(cn)) > 0 {
+			hs = append(hs, cn)
+		}
+	}
+	if len(hs) == 0 {
+		return subs[h.r.Intn(len(subs))]
+	}
+	h.count("gen:picked-holder")
+	return hs[h.r.Intn(len(hs))]
+}
+
 func (h *vfE2H) genSub(tp *vfE2Topic) {
 	r := h.r
 	c := 1 + r.Intn(3)
@@ -1318,13 +1343,14 @@ func (h *vfE2H) genSub(tp *vfE2Topic) {
 		mt = h.cfg.maxmtMs
 	}
 	sample := 0
-	if kind == "dur" && !hasSampler && h.cfg.maxrdy >= 1000 && r.Intn(8) == 0 {
-		sample = 1 + r.Intn(99)
+	if kind == "dur" && !hasSampler && h.cfg.maxrdy >= 1000 && r.Intn(4) == 0 {
+		// audit A17: more sampling consumers, biased to low rates (a message is dropped iff rand.Int31n(100) > rate)
+		sample = []int{1, 10, 50, 90, 1 + r.Intn(99)}[r.Intn(5)]
 	}
 	if tp.chans[c] == nil && !tp.paused && len(tp.pending) == 0 {
 		h.parkEphemeral(tp.sortedChans())
 	}
-	h.exec(fmt.Sprintf("sub %d %d %s %d %d %d", tp.t, c, kind, mt, sample, r.Intn(3)/2))
+	h.exec(fmt.Sprintf("sub %d %d %s %d %d %d", tp.t, c, kind, mt, sample, []int{0, 0, 1, 2}[r.Intn(4)]))
 }
 
 // the malformed stream: answers for ids the connection does not hold
